@@ -61,16 +61,24 @@ func c07StickyErrors(rep *report.Report) {
 		{"TypedBucket.SetTimeP", func(c *boltz.PersistContext, f string) { c.Bucket.SetTimeP(f, &now, c.FieldChecker) }},
 		{"TypedBucket.SetNil", func(c *boltz.PersistContext, f string) { c.Bucket.SetNil(f) }},
 		{"TypedBucket.SetStringList", func(c *boltz.PersistContext, f string) { c.Bucket.SetStringList(f, []string{"a"}, c.FieldChecker) }},
-		{"TypedBucket.GetAndSetStringList", func(c *boltz.PersistContext, f string) { c.Bucket.GetAndSetStringList(f, []string{"a"}, c.FieldChecker) }},
+		{"TypedBucket.GetAndSetStringList", func(c *boltz.PersistContext, f string) {
+			c.Bucket.GetAndSetStringList(f, []string{"a"}, c.FieldChecker)
+		}},
 		{"TypedBucket.GetAndSetString", func(c *boltz.PersistContext, f string) { c.Bucket.GetAndSetString(f, "v", c.FieldChecker) }},
-		{"TypedBucket.PutMap", func(c *boltz.PersistContext, f string) { c.Bucket.PutMap(f, map[string]interface{}{"k": "v"}, c.FieldChecker, true) }},
-		{"TypedBucket.PutList", func(c *boltz.PersistContext, f string) { c.Bucket.PutList(f, []interface{}{"a", int64(1)}, c.FieldChecker) }},
+		{"TypedBucket.PutMap", func(c *boltz.PersistContext, f string) {
+			c.Bucket.PutMap(f, map[string]interface{}{"k": "v"}, c.FieldChecker, true)
+		}},
+		{"TypedBucket.PutList", func(c *boltz.PersistContext, f string) {
+			c.Bucket.PutList(f, []interface{}{"a", int64(1)}, c.FieldChecker)
+		}},
 		{"TypedBucket.PutValue", func(c *boltz.PersistContext, f string) { c.Bucket.PutValue([]byte(f), []byte("v")) }},
 		{"TypedBucket.DeleteValue", func(c *boltz.PersistContext, f string) { c.Bucket.DeleteValue([]byte(f)) }},
 		{"TypedBucket.SetListEntry", func(c *boltz.PersistContext, f string) { c.Bucket.SetListEntry(boltz.TypeString, []byte(f)) }},
 		{"TypedBucket.DeleteListEntry", func(c *boltz.PersistContext, f string) { c.Bucket.DeleteListEntry(boltz.TypeString, []byte(f)) }},
 		{"TypedBucket.SetLinkCount", func(c *boltz.PersistContext, f string) { _, _ = c.Bucket.SetLinkCount(boltz.TypeString, []byte(f), 2) }},
-		{"TypedBucket.IncrementLinkCount", func(c *boltz.PersistContext, f string) { _, _ = c.Bucket.IncrementLinkCount(boltz.TypeString, []byte(f)) }},
+		{"TypedBucket.IncrementLinkCount", func(c *boltz.PersistContext, f string) {
+			_, _ = c.Bucket.IncrementLinkCount(boltz.TypeString, []byte(f))
+		}},
 		{"TypedBucket.GetOrCreateBucket", func(c *boltz.PersistContext, f string) { c.Bucket.GetOrCreateBucket(f + "-sub") }},
 		{"TypedBucket.GetOrCreatePath", func(c *boltz.PersistContext, f string) { c.Bucket.GetOrCreatePath(f+"-sub", "x") }},
 		{"TypedBucket.EmptyBucket", func(c *boltz.PersistContext, f string) { _, _ = c.Bucket.EmptyBucket(f + "-sub") }},
@@ -127,4 +135,107 @@ func c07StickyErrors(rep *report.Report) {
 
 func newLinkRec(entityType, id string) *world.Rec {
 	return world.NewRec(entityType, id).With("label", "L")
+}
+
+// c07RejectedValues: a value the storage layer cannot represent (an unsupported Go type, an empty map key) must be
+// reported wherever it sits inside a nested map / list value - first, last or in the middle, at any depth up to 3:
+// after the write the bucket carries an error, so the store call fails. All value trees over {string leaf,
+// unsupported leaf (two kinds), list and map of 1..2 children, map with an empty key} that contain at least one
+// unrepresentable part are written through PutMap, PutList and PersistContext.SetMap.
+func c07RejectedValues(rep *report.Report, thorough bool) {
+	dir := explore.TmpDir("c07rej")
+	defer os.RemoveAll(dir)
+	db, err := boltz.Open(dir+"/rej.db", "root")
+	if err != nil {
+		panic(err)
+	}
+	defer db.Close()
+	type tree struct {
+		v    interface{}
+		bad  bool
+		text string
+	}
+	leaves := []tree{{"s", false, `"s"`}, {int64(4), false, "4"}, {uint8(7), true, "uint8(7)"}, {[]string{"x"}, true, `[]string{"x"}`}}
+	var build func(depth int) []tree
+	build = func(depth int) []tree {
+		out := append([]tree{}, leaves...)
+		if depth == 0 {
+			return out
+		}
+		sub := build(depth - 1)
+		// keep the fan-out small: children are drawn from the leaves plus the composite sub-trees that contain something bad
+		var kids []tree
+		for _, s := range sub {
+			if s.bad || len(kids) < 2 {
+				kids = append(kids, s)
+			}
+		}
+		if len(kids) > 7 && !thorough {
+			kids = kids[:7]
+		}
+		for _, a := range kids {
+			out = append(out, tree{[]interface{}{a.v}, a.bad, "[" + a.text + "]"})
+			out = append(out, tree{map[string]interface{}{"a": a.v}, a.bad, "{a:" + a.text + "}"})
+			out = append(out, tree{map[string]interface{}{"": a.v}, true, `{"":` + a.text + "}"})
+			for _, b := range kids {
+				if !a.bad && !b.bad {
+					continue
+				}
+				out = append(out, tree{[]interface{}{a.v, b.v}, true, "[" + a.text + "," + b.text + "]"})
+				out = append(out, tree{map[string]interface{}{"a": a.v, "b": b.v}, true, "{a:" + a.text + ",b:" + b.text + "}"})
+			}
+		}
+		return out
+	}
+	depth := 2
+	if thorough {
+		depth = 3
+	}
+	trees := build(depth)
+	writers := []struct {
+		name string
+		call func(b *boltz.TypedBucket, ctx boltz.MutateContext, t interface{})
+	}{
+		{"PutMap(m, {k: V, z: ok})", func(b *boltz.TypedBucket, _ boltz.MutateContext, t interface{}) {
+			b.PutMap("m", map[string]interface{}{"k": t, "z": "ok"}, nil, true)
+		}},
+		{"PutList(l, [ok, V, ok])", func(b *boltz.TypedBucket, _ boltz.MutateContext, t interface{}) {
+			b.PutList("l", []interface{}{"ok", t, "ok"}, nil)
+		}},
+		{"PutList(l, [V])", func(b *boltz.TypedBucket, _ boltz.MutateContext, t interface{}) {
+			b.PutList("l", []interface{}{t}, nil)
+		}},
+		{"PersistContext.SetMap(m, {k: V})", func(b *boltz.TypedBucket, ctx boltz.MutateContext, t interface{}) {
+			pc := &boltz.PersistContext{MutateContext: ctx, Id: "x", Bucket: b}
+			pc.SetMap("m", map[string]interface{}{"k": t})
+		}},
+	}
+	for _, t := range trees {
+		if !t.bad {
+			continue
+		}
+		for _, w := range writers {
+			t, w := t, w
+			rep.Count("evaluations", 1)
+			rep.Count("rejected_value_cases", 1)
+			var after error
+			var pan interface{}
+			_ = db.Update(nil, func(ctx boltz.MutateContext) error {
+				defer func() { pan = recover() }()
+				b := boltz.GetOrCreatePath(ctx.Tx(), "root", "vals", "x")
+				w.call(b, ctx, t.v)
+				after = b.GetError()
+				return errors.New("roll back")
+			})
+			if pan != nil {
+				rep.Violation("C07|rejected-value|panic|"+w.name+"|"+t.text, fmt.Sprintf("%s with V = %s panicked: %v", w.name, t.text, pan), map[string]interface{}{"writer": w.name, "value": t.text})
+				continue
+			}
+			if after == nil {
+				rep.Violation("C07|rejected-value|accepted|"+w.name+"|"+t.text, fmt.Sprintf("%s with V = %s (which contains a part that cannot be stored) left no error on the bucket: the store call would report success", w.name, t.text), map[string]interface{}{"writer": w.name, "value": t.text})
+				continue
+			}
+			rep.Outcome("unrepresentable-value-reported")
+		}
+	}
 }
